@@ -356,6 +356,7 @@ func writeCorpus() {
 		"tfrag.basm":     "%meta bmdef global registersize:8\n%fragment addk\n\trset r1, {{.Params.k}}\n\tadd r0, r1\n%endfragment\n%section alpha .romtext k:3\n\tentry _start\n_start:\n\ti2r r0, i0\n\tcall8s addk\n\tr2o r0, o0\n\tj _start\n%endsection\n%section beta .romtext k:5\n\tentry _start\n_start:\n\ti2r r0, i0\n\tcall8s addk\n\tr2o r0, o0\n\tj _start\n%endsection\n%section gamma .romtext k:9\n\tentry _start\n_start:\n\ti2r r0, i0\n\tcall8s addk\n\tr2o r0, o0\n\tj _start\n%endsection\n%meta cpdef cpa romcode:alpha\n%meta cpdef cpb romcode:beta\n%meta cpdef cpc romcode:gamma\n%meta ioatt l0 cp:bm, type:input, index:0\n%meta ioatt l0 cp:cpa, type:input, index:0\n%meta ioatt l1 cp:cpa, type:output, index:0\n%meta ioatt l1 cp:cpb, type:input, index:0\n%meta ioatt l2 cp:cpb, type:output, index:0\n%meta ioatt l2 cp:cpc, type:input, index:0\n%meta ioatt l3 cp:cpc, type:output, index:0\n%meta ioatt l3 cp:bm, type:output, index:0\n",
 		"chooser1.basm":  "%meta bmdef global registersize:8\n%section sa .romtext iomode:async\n\tentry _start\n_start:\n\trsets6 r0, 3\n\tr2o r0, o0\n\tj _start\n%endsection\n%section sb .romtext iomode:async\n\tentry _start\n_start:\n\tmov r1, 5\n\tmov r0, r1\n\tr2o r0, o0\n\tj _start\n%endsection\n%meta cpdef cpa romcode:sa\n%meta cpdef cpb romcode:sb\n%meta ioatt oa cp:cpa, type:output, index:0\n%meta ioatt oa cp:bm, type:output, index:0\n%meta ioatt ob cp:cpb, type:output, index:0\n%meta ioatt ob cp:bm, type:output, index:1\n",
 		"chooser2.basm":  "%meta bmdef global registersize:8\n%section sa .romtext iomode:async\n\tentry _start\n_start:\n\trsets6 r0, 3\n\tr2o r0, o0\n\tj _start\n%endsection\n%section sb .romtext iomode:async\n\tentry _start\n_start:\n\trset r2, 200\n\tmov r1, 5\n\tmov r0, r1\n\tr2o r0, o0\n\tj _start\n%endsection\n%meta cpdef cpa romcode:sa\n%meta cpdef cpb romcode:sb\n%meta ioatt oa cp:cpa, type:output, index:0\n%meta ioatt oa cp:bm, type:output, index:0\n%meta ioatt ob cp:cpb, type:output, index:0\n%meta ioatt ob cp:bm, type:output, index:1\n",
+		"twoblocks.bmq":  "%meta bmdef global registersize:32\n\n%block pair .sequential\n        qbits   q0, q1\n        zero    q0, q1\n\th\tq0\n        cx      q0, q1\n%endblock\n\n%block triple .sequential\n        qbits   q0, q1, q2\n        zero    q0, q1, q2\n\th\tq0\n        cx      q0, q1\n        cx      q1, q2\n%endblock\n\n%meta bmdef global main:pair\n",
 		"multidata.basm": "%meta bmdef global registersize:8\n%section codea .romtext iomode:async\n\tentry _start\n_start:\n\tmov r0, rom:a1\n\tmov r1, rom:a2\n\tr2o r0, o0\n\tj _start\n%endsection\n%section dataa .romdata\n\ta0 db 0x01, 0x02\n\ta1 db 0x03\n\ta2 db 0x04, 0x05, 0x06\n%endsection\n%section codeb .romtext iomode:async\n\tentry _start\n_start:\n\tmov r1, rom:b1\n\tr2o r1, o0\n\tj _start\n%endsection\n%section datab .romdata\n\tb0 db 0x0a, 0x0b, 0x0c\n\tb1 db 0x0d\n%endsection\n%section codec .romtext iomode:async\n\tentry _start\n_start:\n\tmov r2, rom:c0\n\tr2o r2, o0\n\tj _start\n%endsection\n%section datac .romdata\n\tc0 db 0x11\n%endsection\n%meta cpdef cpa romcode:codea, romdata:dataa\n%meta cpdef cpb romcode:codeb, romdata:datab\n%meta cpdef cpc romcode:codec, romdata:datac\n%meta ioatt oa cp:cpa, type:output, index:0\n%meta ioatt oa cp:bm, type:output, index:0\n%meta ioatt ob cp:cpb, type:output, index:0\n%meta ioatt ob cp:bm, type:output, index:1\n%meta ioatt oc cp:cpc, type:output, index:0\n%meta ioatt oc cp:bm, type:output, index:2\n",
 		"helper.basm":    "%meta bmdef global registersize:8\n%meta cpdef cpa romcode:mul\n%meta cpdef cpb romcode:plain\n\n%section mul .romtext\n\tentry _start\n_start:\n\trset r0, 3\n\trset r1, 5\n\tmultp r0, r1\n\taddp r0, r1\n\tj _start\n%endsection\n\n%section plain .romtext\n\tentry _start\n_start:\n\trset r0, 3\n\tmultp r0, r0\n\tinc r0\n\tj _start\n%endsection\n",
 		"t.go":           "package main\n\nimport (\n\t\"bondgo\"\n)\n\nfunc main() {\n\tvar out0 bondgo.Output\n\tvar a uint8\n\tvar b uint8\n\tout0 = bondgo.Make(bondgo.Output, 3)\n\ta = 1\n\tb = 2\n\ta = a + b\n\tbondgo.IOWrite(out0, a)\n}\n",
@@ -407,6 +408,7 @@ func main() {
 		{Name: "neuralbond:testsmall", Tool: "neuralbond", Args: []string{"-net-file", "net-testsmall.json", "-config-file", "cfg.json", "-neuron-lib-path", "/repo/library/neurons", "-save-basm", "nn.basm"}, Inputs: []string{"net-testsmall.json", "cfg.json"}, Outputs: []string{"nn.basm", "cfg.json"}},
 		{Name: "neuralbond:testsmall-fragment", Tool: "neuralbond", Args: []string{"-net-file", "net-testsmall.json", "-config-file", "cfg.json", "-neuron-lib-path", "/repo/library/neurons", "-operating-mode", "fragment", "-save-basm", "nn.basm"}, Inputs: []string{"net-testsmall.json", "cfg.json"}, Outputs: []string{"nn.basm", "cfg.json"}},
 		{Name: "bmqsim:bell", Tool: "bmqsim", Args: []string{"-build-matrix-seq-hardcoded", "-hw-flavor", "seq_hardcoded_real", "-save-basm", "q.basm", "program.bmq"}, Inputs: []string{"program.bmq"}, Outputs: []string{"q.basm"}},
+		{Name: "bmqsim:two-blocks-global-meta-first", Tool: "bmqsim", Args: []string{"-build-matrix-seq-hardcoded", "-hw-flavor", "seq_hardcoded_real", "-save-basm", "q.basm", "twoblocks.bmq"}, Inputs: []string{"twoblocks.bmq"}, Outputs: []string{"q.basm"}},
 		{Name: "bondgo:t", Tool: "bondgo", Args: []string{"-input-file", "t.go", "-save-assembly", "t.asm"}, Inputs: []string{"t.go"}, Outputs: []string{"t.asm"}, Retry: true},
 	}
 	// chained cases use the baseline output of an upstream tool as their (fixed) input
@@ -437,6 +439,7 @@ func main() {
 		sites        []site
 		syms         map[string]string
 		skipped      string
+		baseFailed   bool
 		devs         int
 		differ       int
 		inconclusive int
@@ -449,6 +452,20 @@ func main() {
 		infos[c.Name] = ci
 		order = append(order, c.Name)
 		b1 := runCase(c, policy{}, true)
+		if strings.HasPrefix(b1.err, "no output produced") && len(b1.sites) > 0 {
+			// the tool fails under the default policy: that is an outcome too. The deviations are still run, and one
+			// under which the tool succeeds shows that success itself depends on the policy.
+			ci.baseFailed = true
+			ci.base = b1
+			ci.sites = b1.sites
+			var pcs []string
+			for _, s := range ci.sites {
+				pcs = append(pcs, s.PC)
+			}
+			ci.syms = symbolise(c.Tool, pcs)
+			fmt.Fprintf(os.Stderr, "note: case %s fails under the default policy (%s); exploring whether another policy makes it succeed\n", c.Name, b1.err)
+			return
+		}
 		if b1.err != "" {
 			ci.skipped = b1.err
 			return
@@ -559,6 +576,11 @@ func main() {
 				run.Cov["evaluations"] = run.Get0("evaluations") + 1
 				if r.err == "timeout" || r.err == "tool hung on every attempt" {
 					ci.inconclusive++
+				} else if ci.baseFailed {
+					if r.err == "" {
+						founds = append(founds, found{d, "the tool FAILS under the default policy (" + ci.base.err + ") and produces its output under this one"})
+						ci.differ++
+					}
 				} else if r.err != "" {
 					founds = append(founds, found{d, "tool failed under this map order: " + r.err})
 					ci.differ++
